@@ -471,7 +471,7 @@ def dispatch(rec, case):
 
 def plan(tier, seed):
     n = 16
-    per = 3000 if tier == 'thorough' else 500
+    per = 15000 if tier == 'thorough' else 500
     shards = [{'seed': seed, 'shard': s, 'n': per} for s in range(n)]
     pairs = []
     scheds = [0, 1, 2, 3] if tier == 'quick' else list(range(0, 40))
